@@ -199,6 +199,9 @@ fn build_ofrags(tier: &str) -> OFrags {
     OFrags { tier: tier.to_string(), corners: corners(tier), gvs, quals, funcs }
 }
 
+/// link address of the simulated outstation
+const OUT: u16 = crate::osim::OUTSTATION_ADDR;
+
 const CTRLS: [u8; 6] = [0xC0, 0xE0, 0xD0, 0x80, 0x40, 0x00];
 
 impl OFrags {
@@ -215,8 +218,8 @@ impl OFrags {
             let crob = app::prefixed8(12, 1, &[(0, app::crob(0x03, 1, 10, 10, 0))]);
             for ctrl in CTRLS {
                 for objs in [vec![], app::hdr_all(60, 1), crob.clone(), vec![0xFF], vec![1, 2, 0x00, 0, 7]] {
-                    for dst in [1024u16, 0xFFFF, 0xFFFD] {
-                        if dst != 1024 && !(ctrl == 0xC0 || ctrl == 0xE0) {
+                    for dst in [OUT, 0xFFFF, 0xFFFD] {
+                        if dst != OUT && !(ctrl == 0xC0 || ctrl == 0xE0) {
                             continue;
                         }
                         v.push((dst, app::request_ctrl(ctrl, func, &objs)));
@@ -225,8 +228,8 @@ impl OFrags {
             }
             // degenerate fragments ride along with function 0
             if func == 0 {
-                v.push((1024, vec![]));
-                v.push((1024, vec![0xC0]));
+                v.push((OUT, vec![]));
+                v.push((OUT, vec![0xC0]));
             }
             (c, format!("function {func}"), v)
         } else {
@@ -239,7 +242,7 @@ impl OFrags {
             let mut v = Vec::new();
             for objs in hostile_objects(g, var, q, max) {
                 for f in &self.funcs {
-                    v.push((1024u16, app::request(0, *f, &objs)));
+                    v.push((OUT, app::request(0, *f, &objs)));
                 }
             }
             (c, format!("g{g}v{var} qualifier {q:02X}"), v)
@@ -280,6 +283,11 @@ impl CaseSpace for OFrags {
             h.add(&f);
             if transcript {
                 res.transcript.push(format!("-> (dst {dst}) {}", app::hex(&f[..f.len().min(48)])));
+                for tx in sim.take_out() {
+                    if let Some(d) = tx.frag() {
+                        res.transcript.push(format!("   <= {}", app::hex(&d[..d.len().min(40)])));
+                    }
+                }
             }
             let r = p.probe(&mut sim, 2 * CONFIRM_MS + 1000, if transcript { Some(&mut res.transcript) } else { None });
             let key = format!("outstation/idle/fc{}", f.get(1).copied().unwrap_or(0));
@@ -792,15 +800,15 @@ fn link_tokens() -> Vec<(String, Vec<u8>)> {
     v.push(("valid-body-block".into(), blk.clone()));
     blk[3] ^= 0x10;
     v.push(("damaged-body-block".into(), blk));
-    v.push(("link-status-request".into(), link::frame(0xC9, 1024, 1, &[])));
-    v.push(("reset-link".into(), link::frame(0xC0, 1024, 1, &[])));
-    v.push(("test-link".into(), link::frame(0xF2, 1024, 1, &[])));
-    v.push(("ack".into(), link::frame(0x80, 1024, 1, &[])));
-    v.push(("confirmed-user-data".into(), link::frame(0xF3, 1024, 1, &[0xC0, 0xC1, 0x01, 60, 1, 0x06])));
-    v.push(("data-from-outstation-direction".into(), link::frame(0x44, 1024, 1, &[0xC0, 0xC1, 0x01])));
+    v.push(("link-status-request".into(), link::frame(0xC9, OUT, 1, &[])));
+    v.push(("reset-link".into(), link::frame(0xC0, OUT, 1, &[])));
+    v.push(("test-link".into(), link::frame(0xF2, OUT, 1, &[])));
+    v.push(("ack".into(), link::frame(0x80, OUT, 1, &[])));
+    v.push(("confirmed-user-data".into(), link::frame(0xF3, OUT, 1, &[0xC0, 0xC1, 0x01, 1, 0, 0x06])));
+    v.push(("data-from-outstation-direction".into(), link::frame(0x44, OUT, 1, &[0xC0, 0xC1, 0x01])));
     v.push(("data-to-other-address".into(), link::frame(0xC4, 77, 1, &[0xC0, 0xC1, 0x01])));
-    v.push(("data-zero-payload".into(), link::frame(0xC4, 1024, 1, &[])));
-    v.push(("data-max-payload".into(), link::frame(0xC4, 1024, 1, &[0xC1; 250])));
+    v.push(("data-zero-payload".into(), link::frame(0xC4, OUT, 1, &[])));
+    v.push(("data-max-payload".into(), link::frame(0xC4, OUT, 1, &[0xC1; 250])));
     v
 }
 
@@ -1011,7 +1019,7 @@ impl CaseSpace for OTransport {
             tseq = (tseq as i16 + *delta as i16).rem_euclid(64) as u8;
             let mut seg = vec![bits | tseq];
             seg.extend((0..*payload).map(|k| if k == 0 { 0xC1 } else { k as u8 }));
-            sim.send_raw(&link::master_data(1024, *src, &seg));
+            sim.send_raw(&link::master_data(OUT, *src, &seg));
             labels.push(label.clone());
             res.transitions += 1;
         }
@@ -1050,19 +1058,19 @@ struct OReplaced {
 
 fn build_oreplaced() -> OReplaced {
     let mut v: Vec<(String, Vec<u8>)> = vec![("nothing".into(), vec![])];
-    let read = link::master_data(1024, 1, &[0xC0, 0xC1, 0x01, 60, 1, 0x06]);
+    let read = link::master_data(OUT, 1, &[0xC0, 0xC1, 0x01, 60, 1, 0x06]);
     for n in [1usize, 2, 3, 5, 9, 10, 11, 14, read.len() - 1] {
         v.push((format!("first-{n}-octets-of-a-request-frame"), read[..n].to_vec()));
     }
     v.push(("05".into(), vec![0x05]));
     let mut seg = vec![0x40u8 | 9];
     seg.extend_from_slice(&[0xC0, 0x02, 50, 1, 0x07, 1]);
-    v.push(("first-segment-of-a-two-segment-fragment".into(), link::master_data(1024, 1, &seg)));
+    v.push(("first-segment-of-a-two-segment-fragment".into(), link::master_data(OUT, 1, &seg)));
     let mut big = vec![0x40u8 | 3];
     big.extend((0..249).map(|k| if k == 0 { 0xC1 } else { k as u8 }));
-    v.push(("full-first-segment".into(), link::master_data(1024, 1, &big)));
+    v.push(("full-first-segment".into(), link::master_data(OUT, 1, &big)));
     v.push(("reset-link-then-half-a-frame".into(), {
-        let mut b = link::frame(0xC0, 1024, 1, &[]);
+        let mut b = link::frame(0xC0, OUT, 1, &[]);
         b.extend_from_slice(&read[..7]);
         b
     }));
@@ -1640,6 +1648,142 @@ impl CaseSpace for MStream {
 }
 
 // ---------------------------------------------------------------------------------------
+// (M-d) a peer that never answers but never falls silent either
+// ---------------------------------------------------------------------------------------
+
+/// For each task state with an outstanding request: the peer never answers that request but
+/// keeps sending something the master ignores (or handles without it being the answer), at a
+/// period shorter than the response timeout.  The master must not stall: the outstanding task
+/// ends (times out) and a fresh user READ, whose request *is* answered, completes.
+struct MChatter;
+
+const CHATTER: [&str; 6] = [
+    "unsolicited-with-data",
+    "response-uns-bit",
+    "response-from-other-address",
+    "link-status-request",
+    "stale-response",
+    "unsolicited-null",
+];
+const CHATTER_PERIODS: [u64; 3] = [300, 700, 999];
+const CHATTER_STATES: [usize; 7] = [1, 2, 3, 4, 5, 6, 8];
+
+fn chatter_bytes(sim: &mut MSim, kind: usize, outstanding_seq: u8, round: u8) -> Vec<u8> {
+    let mut g30 = app::hdr_range8(30, 1, 0, 0);
+    g30.push(1);
+    g30.extend_from_slice(&5i32.to_le_bytes());
+    match kind {
+        0 => sim.frame_fragment(1024, 1, &app::response(0xF0 | (round & 0x0F), 130, 0, 0, &g30)),
+        1 => sim.frame_fragment(1024, 1, &app::response(0xD0 | outstanding_seq, 129, 0, 0, &g30)),
+        2 => sim.frame_fragment(77, 1, &app::response(0xC0 | outstanding_seq, 129, 0, 0, &g30)),
+        3 => link::frame(0x49, 1, 1024, &[]),
+        4 => sim.frame_fragment(1024, 1, &app::response(0xC0 | ((outstanding_seq + 8) & 0x0F), 129, 0, 0, &g30)),
+        _ => sim.frame_fragment(1024, 1, &app::response(0xF0 | (round & 0x0F), 130, 0, 0, &[])),
+    }
+}
+
+impl CaseSpace for MChatter {
+    fn name(&self) -> String {
+        "master-chatter".into()
+    }
+    fn seeded(&self) -> bool {
+        true
+    }
+    fn total(&self) -> usize {
+        CHATTER.len() * CHATTER_PERIODS.len() * CHATTER_STATES.len() * 2
+    }
+    fn run(&self, index: usize, transcript: bool) -> RunResult {
+        let mut res = RunResult::default();
+        let kind = index % CHATTER.len();
+        let i = index / CHATTER.len();
+        let period = CHATTER_PERIODS[i % CHATTER_PERIODS.len()];
+        let i = i / CHATTER_PERIODS.len();
+        let state = CHATTER_STATES[i % CHATTER_STATES.len()];
+        let decode_all = i / CHATTER_STATES.len() == 0;
+        res.obs = index as u64 + 777;
+        let key = format!("master/{}/chatter-{}", MSTATES[state], CHATTER[kind]);
+        let mut sim = MSim::new(&mcfg(decode_all, false, false), 1);
+        let (a, req) = match enter_mstate(&mut sim, state) {
+            Ok((a, Some(r))) => (a, r),
+            Ok((_, None)) => return res,
+            Err(e) => {
+                if let Some(f) = sim.failure() {
+                    res.violation = Some(Violation::new("C01.M1", key, format!("while entering the state: {f}")));
+                } else if transcript {
+                    res.transcript.push(format!("state not reached: {e}"));
+                }
+                return res;
+            }
+        };
+        if transcript {
+            res.transcript.push(format!(
+                "state {} (outstanding request {}), never answered; the peer sends {} every {period} ms",
+                MSTATES[state],
+                app::hex(&req[..req.len().min(16)]),
+                CHATTER[kind]
+            ));
+        }
+        let mut h = a.clone();
+        sim.take_cb();
+        sim.take_out();
+        sim.call("probe", async move { h.read(ReadRequest::class_scan(Classes::class0())).await });
+        let limit = 12 * RESPONSE_TIMEOUT_MS;
+        let mut waited = 0u64;
+        let mut round = 0u8;
+        let mut served = false;
+        'outer: while waited < limit {
+            let reqs: Vec<Vec<u8>> = sim.take_out().iter().filter_map(|t| t.frag()).filter(|f| f.len() >= 2 && f[1] != 0).map(|f| f.to_vec()).collect();
+            for r in reqs {
+                if transcript {
+                    res.transcript.push(format!("   t+{waited}: master writes {}", app::hex(&r[..r.len().min(32)])));
+                }
+                if r != req {
+                    sim.respond(&ideal_reply(&r, 0));
+                }
+            }
+            let (cbs, _) = sim.take_cb();
+            for c in cbs {
+                if let MCb::Done(n, r) = &c {
+                    if transcript {
+                        res.transcript.push(format!("   t+{waited}: {n} -> {r}"));
+                    }
+                    if n == "probe" {
+                        served = r.starts_with("Ok");
+                        break 'outer;
+                    }
+                }
+            }
+            if sim.failure().is_some() {
+                break;
+            }
+            round = round.wrapping_add(1);
+            let b = chatter_bytes(&mut sim, kind, req[0] & 0x0F, round);
+            sim.send_raw(&b);
+            res.transitions += 1;
+            sim.advance(period);
+            waited += period;
+        }
+        if let Some(f) = sim.failure() {
+            res.violation = Some(Violation::new("C01.M1", fail_key(&key, &f), f));
+        } else if !served {
+            res.violation = Some(Violation::new(
+                "C01.M3",
+                key,
+                format!(
+                    "request {} is never answered while the peer sends {} every {period} ms (response timeout {RESPONSE_TIMEOUT_MS} ms): after {waited} ms a fresh user READ has still not completed",
+                    app::hex(&req[..req.len().min(16)]),
+                    CHATTER[kind]
+                ),
+            ));
+        } else {
+            res.nontrivial = true;
+        }
+        res.model_states.push((state * 10 + kind) as u64);
+        res
+    }
+}
+
+// ---------------------------------------------------------------------------------------
 
 fn spaces(tier: &str) -> Vec<Box<dyn CaseSpace>> {
     vec![
@@ -1652,6 +1796,7 @@ fn spaces(tier: &str) -> Vec<Box<dyn CaseSpace>> {
         Box::new(build_oreplaced()),
         Box::new(build_mfrags(tier)),
         Box::new(MStates { hostile: master_small_hostile() }),
+        Box::new(MChatter),
         Box::new(MStream { tokens: master_link_tokens(), depth: if tier == "quick" { 2 } else { 3 } }),
     ]
 }
@@ -1678,7 +1823,7 @@ pub fn check(tier: &str) -> i32 {
         "model_checking",
         "finite products of hostile input x session state x configuration corner, each run against the real outstation task (inside the real server task) or the real master task (inside the client loop) over the production link and transport layers and a byte pipe on a virtual clock: \
          outstation: (a) every function code 0..=255 x 6 control octets x 5 object strings x {own address, broadcast 0xFFFF / 0xFFFD}, and the object-header product (every known variation + unknown ones x 12 qualifier codes x 7 count/range shapes x {exact, -1 octet, +1 octet, header only} x {data, no data}) under 4 (17 thorough) function codes; (b) 10 session states (idle, solicited confirm wait, after fragment 1 / 2 of a series, unsolicited null / data confirm wait, deferred READ pending, event overflow during a solicited / an unsolicited confirm wait, selected) x 290 hostile fragments x {awaited, next, unrelated sequence number}; (c) control requests of every length around the transmit and receive buffer sizes; (d) every sequence of <= 2 (3) link tokens (sync fragments, headers with 7 length octets with good and bad CRC, body blocks, link-layer frames, wrong direction / address, empty and maximal payloads) under every relevant chunking x {Discard, Close} x {stream, datagram}; (e) every sequence of <= 2 (3) transport segments over FIR/FIN x sequence step x payload {0,1,249} x source, receive buffers 249 / 500; \
-         master: (f) every function code x 8 control octets x 5 bodies and the object-header product as a reply to an outstanding READ and unasked / unsolicited; (g) 9 task states (idle, awaiting READ / SELECT / OPERATE / start-up / integrity / file replies, between fragments, link status) x 285 hostile fragments x 3 sequence numbers; (h) link tokens as in (d). \
+         master: (f) every function code x 8 control octets x 5 bodies and the object-header product as a reply to an outstanding READ and unasked / unsolicited; (g) 9 task states (idle, awaiting READ / SELECT / OPERATE / start-up / integrity / file replies, between fragments, link status) x 285 hostile fragments x 3 sequence numbers; (h) link tokens as in (d); (i) 7 task states with an outstanding request that is never answered x 6 kinds of traffic the master does not take as the answer (unsolicited data / null responses, response with the UNS bit, response from another address, link status requests, stale sequence number) repeated at 3 periods below the response timeout: a fresh user READ must still complete. \
          After the hostile input a probe must be served: outstation = READ g1v0 answered with the probe's sequence number and the two binary inputs (repeated probes and a new session only where a mis-framed stream legitimately swallows frames or Close ends the session); master = a fresh user READ is written and completed by its ideal reply. Every run is under catch_unwind with overflow checks, a poll cap (livelock) and a wall-clock watchdog (hang). \
          non-trivial = the probe was served after hostile input; distinct = distinct (input, state, corner)",
         &[
